@@ -170,7 +170,7 @@ func c13Jobs(quick bool) []c13Job {
 	)
 	// declaration sets of C02's two-position / template families on a multi-record XML input
 	n := 0
-	input := "<all>" + strings.Join(c02Records, "") + "</all>"
+	input := "<all>" + strings.Join(c02Records[:6], "") + "</all>"
 	c02Enumerate(quick, func(label string, decls gd) bool {
 		if !strings.HasPrefix(label, "C:") {
 			return true
